@@ -101,7 +101,7 @@ def main():
             {'name': 'realnet', 'path': 'vf/realnet', 'serves_properties': ['C01', 'C02', 'C07'],
              'kind_free_text': 'sampled scenarios of the simnet generator on real pyzmq over ipc://, one OS process per filter, real SIGKILL/restart; per-process JSONL event logs merged and judged by the same offline checkers (time-independent safety predicates only)'},
             {'name': 'seqmon', 'path': 'vf/props', 'serves_properties': [c for c in ids if c in CHECKS and CHECKS[c][0] == 'seqmon'],
-             'kind_free_text': 'seeded generators and bounded exhaustive enumeration driving the real API in lock step with small reference models; icontract invariants/postconditions on the real classes (also while the repository's own tests run: vf/contracts_plugin.py); crash failpoints'},
+             'kind_free_text': 'seeded generators and bounded exhaustive enumeration driving the real API in lock step with small reference models; icontract invariants/postconditions on the real classes (also while the repository tests run: vf/contracts_plugin.py); crash failpoints'},
         ],
         'checks': checks,
         'not_applicable': na,
